@@ -12,6 +12,7 @@ RULE = ("45 signed structures computed by TLC with key and signature slots (Rout
         "Ed25519ph key). Judged: library verification success => the independent decision on the raw bytes (signature valid under the key "
         "at the specification's offset over prefix ++ received bytes; transient key authorised by the identity key). Non-trivial = the "
         "library reported success (antecedent) or an adversary step was applied to a structure the library had verified.")
+RULE += (' Adversary steps include whole-pair swaps of options; MetaLeaseSet skeletons with DSA/ECDSA identities; every skeleton is also verified as two DISTINCT values (genuine / one content bit flipped) by 16 goroutines at the same time (no false accept).')
 ASSUME = [common.TRUSTED, "independent verification uses crypto/ed25519, crypto/ecdsa and go-i2p/crypto's DSA verifier (dependencies, not the code under test)",
           "unforgeability of the signature schemes; the adversary owns only its own keys",
           "an event is judged only when the reference decoder finds the signature/key slots of the mutated bytes where the driver used them"]
